@@ -122,13 +122,13 @@ pub fn run(ctx: &Ctx, ev: &mut Ev) {
         let sizes: Vec<usize> = if th { vec![65_535, 65_536, 65_537, 70_001, 131_073, (1 << 20) + 1] } else { vec![65_535, 65_536, 65_537, 70_001] };
         for &enc in ALL.iter() { for &n in sizes.iter() {
             if !ev.mine() { continue; }
+            // a pool of error-free segments for this encoding (drawn once), cycled until the stream is long enough
+            let mut pool: Vec<Vec<u8>> = vec![];
+            for _ in 0..400 { let seg = random_stream(&mut r, enc, 6); if !seg.is_empty() && seg.len() <= 64 && !M.decode(enc.name(), &seg).iter().any(|i| matches!(i, Item::E(..))) { pool.push(seg); if pool.len() >= 24 { break; } } }
+            if pool.is_empty() { pool.push(b"abc".to_vec()); }
             let mut stream: Vec<u8> = Vec::with_capacity(n + 64);
-            let mut tries = 0;
-            while stream.len() < n {
-                let seg = random_stream(&mut r, enc, 6); tries += 1;
-                if seg.is_empty() || (tries < 4000 && M.decode(enc.name(), &seg).iter().any(|i| matches!(i, Item::E(..)))) { if tries >= 4000 { stream.push(b'a'); } continue; }
-                stream.extend_from_slice(&seg);
-            }
+            let mut k = 0usize;
+            while stream.len() < n { stream.extend_from_slice(&pool[k % pool.len()]); k += 1 + (k / pool.len()) % 3; }
             stream.truncate(n);
             c.check(ev, enc, &stream, true);
             for p in [65_534usize, 65_535, 65_536, n - 1] { if p < n { stream[p] = 0xFF; } }
